@@ -144,6 +144,15 @@ def run(ctx):
                 warnings.simplefilter("ignore")
                 vals = list(centres) + ([a0, b0] if rng.random() < 0.6 else [b0, a0])       # ascending and descending limits
                 inputs = [make_input(1000 + i, v, base, shared) if ob else float(v) for v, ob in zip(vals, isobs)]
+                # the SAME observable object in two slots (a parameter that is also the upper limit, or two equal parameters): its
+                # fluctuation then enters through both partial derivatives
+                if i % 4 == 3:
+                    obs_slots = [k for k in range(npar + 2) if isobs[k] and k != npar]
+                    if len(obs_slots) >= 2:
+                        k1, k2 = rng.sample(obs_slots, 2)
+                        if k2 == npar + 1 or (k1 != npar + 1 and abs(vals[k1] - vals[k2]) < 1e9):
+                            inputs[k2] = inputs[k1]
+                            ctx.count("quad: one observable object in two slots")
                 pvars = [E.var(npar_i) for npar_i in range(npar)]
                 fexpr = fb(pvars, E.var(npar))
                 func = X.fit_function(fexpr, npar, 1)
